@@ -214,7 +214,7 @@ def m_cldr(c, binp, tier, modes=("keys", "closure"), tag=""):
                               expect_cases="distinct" if mode == "keys" else None))
 
 
-SWEEP_INV = ["Uniform", "RelevantSufficient", "KnownIsDeterministic", "ClassLaws", "DirUniform", "EmitCase"]
+SWEEP_INV = ["Uniform", "RelevantSufficient", "KnownIsDeterministic", "CfgReductionSound", "ClassLaws", "DirUniform", "EmitCase"]
 
 
 def m_sweep(c, binp, tier, parts=("known", "und"), tag="", stride=1):
